@@ -742,7 +742,8 @@ def fx_world(eng, st, pname):
 
 def _effect_obj(eng, st, e):
     ok = e.tag if e.tag is not None else BT
-    return st.alloc(HObj("opaque", None, fields={
+    kw = {("kw_" + k): v for k, v in (e.kwargs or {}).items() if isinstance(k, str) and not k.startswith("_") and not isinstance(v, (int, str, float, type(None)))}
+    return st.alloc(HObj("opaque", None, fields={**kw, 
         "method": C(e.method), "side": C(e.recv) if isinstance(e.recv, (int, str)) else NONE,
         "args": T(e.args), "ok": P.mk_bool(ok), "result": e.result if e.result is not None else NONE,
         "kwargs": NONE, "held": C(e.kwargs.get("_held", -1) if isinstance(e.kwargs, dict) else -1)}, meta={"tag": "effect"}))
@@ -1186,7 +1187,10 @@ def make_stub(name, results=("FINISHED", "PUNT", "REQUEUE"), may_raise=True, hav
         state = None
         if isinstance(self_v, R):
             state = st.obj(self_v).fields.get("state")
-        st.effects.append(Effect("mgr", short, list(args), dict(kwargs), None))
+        kw = dict(kwargs)
+        kw["_held"] = st.ghost.get("held", 0)
+        eff = Effect("mgr", short, list(args), kw, None)
+        st.effects.append(eff)
         if havoc and state is not None:
             for ent in known_entries(st, state):
                 for sd in (0, 1):
@@ -1213,7 +1217,9 @@ def make_stub(name, results=("FINISHED", "PUNT", "REQUEUE"), may_raise=True, hav
                 out.append((k == i, T([P.fresh("str", short + ".a"), P.fresh("str", short + ".b")])))
             else:
                 out.append((k == i, vals[rname]))
-        res.append((st, (VAL, mk_union(out))))
+        rv = mk_union(out)
+        eff.result = rv
+        res.append((st, (VAL, rv)))
         return res
     return h
 
@@ -1422,7 +1428,11 @@ def _resolver_call(eng, st, fv, args, kwargs):
     res = []
     keep = P.fresh("bool", "resolver.keep")
 
+    only = (eng.ghost_cfg or {}).get("resolver")      # case split by configuration: one behaviour per generation task
+
     def out(s, v, beh):
+        if only is not None and beh != only:
+            return
         s.ghost["resolver_behaviour"] = beh
         res.append((s, (VAL, v)))
     for i, a in enumerate(args[:2]):
@@ -1435,14 +1445,16 @@ def _resolver_call(eng, st, fv, args, kwargs):
     out(st.clone(), C(5), "non-tuple")
     out(st.clone(), T([args[0], keep, C(1)]), "wrong-length")
     out(st.clone(), T([C(5), keep]), "not-file-like")
-    s = st.clone()
-    s.ghost["resolver_behaviour"] = "raise-temporary"
-    res.append((s, (RAISE, eng.new_exc(s, cls(eng, "cloudsync.exceptions:CloudTemporaryError")))))
-    s = st
-    s.ghost["resolver_behaviour"] = "raise-other"
-    others = [ClassRef("Exception"), ClassRef("ValueError"), cls(eng, "cloudsync.exceptions:CloudFileNotFoundError"),
-              cls(eng, "cloudsync.exceptions:CloudException")]
-    res.append((s, (RAISE, eng.sym_exc(s, others, prefix="resolver.exc"))))
+    if only is None or only == "raise-temporary":
+        s = st.clone()
+        s.ghost["resolver_behaviour"] = "raise-temporary"
+        res.append((s, (RAISE, eng.new_exc(s, cls(eng, "cloudsync.exceptions:CloudTemporaryError")))))
+    if only is None or only == "raise-other":
+        s = st
+        s.ghost["resolver_behaviour"] = "raise-other"
+        others = [ClassRef("Exception"), ClassRef("ValueError"), cls(eng, "cloudsync.exceptions:CloudFileNotFoundError"),
+                  cls(eng, "cloudsync.exceptions:CloudException")]
+        res.append((s, (RAISE, eng.sym_exc(s, others, prefix="resolver.exc"))))
     return res
 
 
@@ -1603,8 +1615,9 @@ def h_events(eng, st, self_v, args, kwargs):
 
     def gen(eng_, s_):
         return [(s_, new_event(eng_, s_, "event"))]
-    st.effects.append(Effect(side, "events", [], {}, None))
-    return eng.ok(st, B.new_abslist(eng, st, gen, name="events"))
+    lst = B.new_abslist(eng, st, gen, name="events")
+    st.effects.append(Effect(side, "events", [], {}, lst))
+    return eng.ok(st, lst)
 
 
 def new_event(eng, st, prefix):
@@ -1640,14 +1653,37 @@ B.BUILTIN_FUNCS["dataclasses.replace"] = h_dc_replace
 
 def _state_effect(name):
     def h(eng, st, self_v, args, kwargs):
-        st.effects.append(Effect("state", name, list(args), {"_held": st.ghost.get("held", 0)}, None))
+        eff = Effect("state", name, list(args), {"_held": st.ghost.get("held", 0)}, None)
+        st.effects.append(eff)
         if name == "storage_get_data":
-            return eng.ok(st, opt(P.fresh_name("stored"), P.fresh("Cursor", "stored")))
+            v = opt(P.fresh_name("stored"), P.fresh("Cursor", "stored"))
+            eff.result = v
+            return eng.ok(st, v)
         return eng.ok(st, NONE)
     return h
 
 
+def h_walk_oid(eng, st, self_v, args, kwargs):
+    """Provider.walk_oid(oid): an arbitrary sequence of events for existing objects, or a cloud exception (raised here at
+    the call; the real generator raises while iterating, which is inside the same try block at its only call site)"""
+    o = st.obj(self_v)
+    side = o.meta.get("side")
+    res = []
+    s2 = st.clone()
+    allowed = [cls(eng, "cloudsync.exceptions:" + n) for n in CLOUD_EXC] + [ClassRef("Exception")]
+    s2.effects.append(Effect(side, "walk_oid", list(args), {}, None, tag=BF))
+    res.append((s2, (RAISE, eng.sym_exc(s2, allowed, prefix="walk_oid.exc"))))
+
+    def gen(eng_, s_):
+        return [(s_, new_event(eng_, s_, "walked"))]
+    lst = B.new_abslist(eng, st, gen, name="walked")
+    st.effects.append(Effect(side, "walk_oid", list(args), {}, lst, tag=BT))
+    res.append((st, (VAL, lst)))
+    return res
+
+
 def install_event_models(eng):
+    eng.handlers["cloudsync.provider:Provider.walk_oid"] = h_walk_oid
     eng.handlers["cloudsync.provider:Provider.current_cursor"] = h_cursor_prop("current_cursor")
     eng.handlers["cloudsync.provider:Provider.latest_cursor"] = h_cursor_prop("latest_cursor")
     eng.handlers["cloudsync.provider:Provider.events"] = h_events
